@@ -51,8 +51,10 @@ type objective struct {
 	f      func(x []float64) float64
 	grad   func(g, x []float64)
 	hess   func(h *mat.SymDense, x []float64)
-	nanCut float64 // bad region: x[0] > nanCut
-	bad    int     // 0 none, 1 NaN, 2 +Inf, 3 -Inf in the bad region
+	nanCut float64       // bad region: x[0] > nanCut
+	qa     *mat.SymDense // quadratics: f = x'Ax/2 - b'x
+	qb     []float64
+	bad    int // 0 none, 1 NaN, 2 +Inf, 3 -Inf in the bad region
 }
 
 func (o *objective) inBad(x []float64) bool { return o.bad != 0 && x[0] > o.nanCut }
@@ -84,9 +86,12 @@ func (o *objective) Grad(g, x []float64) {
 	o.grad(g, x)
 }
 
-func drawObjective(t *simrt.Tape, dim int, needEvenDim bool) *objective {
+func drawObjective(t *simrt.Tape, dim int, forceQuadratic bool) *objective {
 	o := &objective{dim: dim}
 	kind := t.Choose(simrt.KWorkload, 3)
+	if forceQuadratic {
+		kind = 0
+	}
 	if kind == 1 && dim%2 != 0 {
 		kind = 0
 	}
@@ -115,6 +120,7 @@ func drawObjective(t *simrt.Tape, dim int, needEvenDim bool) *objective {
 			b[i] = float64(t.Choose(simrt.KValue, 7) - 3)
 		}
 		o.name = fmt.Sprintf("quadratic(A=%v,b=%v)", a.RawSymmetric().Data, b)
+		o.qa, o.qb = a, b
 		o.f = func(x []float64) float64 {
 			var s float64
 			for i := 0; i < dim; i++ {
@@ -175,6 +181,7 @@ func drawObjective(t *simrt.Tape, dim int, needEvenDim bool) *objective {
 // evalLog records objective callbacks from worker goroutines (norace, no
 // allocation; see callLog).
 type evalLog struct {
+	limit               int // callbacks after which the run counts as not terminating
 	dim                 int
 	xs                  []float64
 	fs                  []float64
@@ -183,18 +190,26 @@ type evalLog struct {
 	inflight, maxIn     int
 	nStatus             int
 	overflow            bool
+	nanX                bool // some evaluation point had a NaN or Inf coordinate
 }
 
 func newEvalLog(dim, capacity int) *evalLog {
-	return &evalLog{dim: dim, xs: make([]float64, dim*capacity), fs: make([]float64, capacity)}
+	return &evalLog{dim: dim, xs: make([]float64, dim*capacity), fs: make([]float64, capacity), limit: runawayLimit}
 }
 
 // runawayLimit bounds the callbacks of one Minimize call; every limit the
-// harness configures is far below it.
-const runawayLimit = 6000
+// harness configures is far below it. defaultSettingsRunaway is the bound for
+// runs with no limit at all (isolated == 4), which stop when the default
+// convergence tests say so: on the quadratics generated here (condition number
+// below 300) gradient descent, the slowest method, needs a few thousand
+// iterations of a few evaluations each.
+const (
+	runawayLimit           = 6000
+	defaultSettingsRunaway = 150000
+)
 
 //go:norace
-func (l *evalLog) runaway() bool { return l.nFunc+l.nGrad+l.nHess > runawayLimit }
+func (l *evalLog) runaway() bool { return l.nFunc+l.nGrad+l.nHess > l.limit }
 
 // stalled reports whether the last k recorded evaluations were all at the
 // same point.
@@ -228,6 +243,11 @@ func (l *evalLog) leave() { l.inflight-- }
 //go:norace
 func (l *evalLog) recFunc(x []float64, f float64) {
 	l.nFunc++
+	for i := 0; i < l.dim; i++ {
+		if x[i] != x[i] || x[i] > math.MaxFloat64 || x[i] < -math.MaxFloat64 {
+			l.nanX = true
+		}
+	}
 	if l.n < len(l.fs) {
 		for i := 0; i < l.dim; i++ {
 			l.xs[l.n*l.dim+i] = x[i]
@@ -289,6 +309,7 @@ type recEntry struct {
 	op    optimize.Operation
 	stats optimize.Stats
 	f     float64
+	x, g  []float64 // copies, kept for InitIteration and MajorIteration records
 }
 
 type recorder struct {
@@ -315,7 +336,14 @@ func (r *recorder) Record(loc *optimize.Location, op optimize.Operation, st *opt
 	}
 	r.inRecord = true
 	simrt.Yield()
-	r.entries = append(r.entries, recEntry{op, *st, loc.F})
+	e := recEntry{op: op, stats: *st, f: loc.F}
+	if (op == optimize.InitIteration || op == optimize.MajorIteration) && len(r.entries) < 400 {
+		e.x = append([]float64(nil), loc.X...)
+		if loc.Gradient != nil {
+			e.g = append([]float64(nil), loc.Gradient...)
+		}
+	}
+	r.entries = append(r.entries, e)
 	r.inRecord = false
 	if r.errAt > 0 && len(r.entries) == r.errAt {
 		r.failed = r.errAt
@@ -378,14 +406,15 @@ type minInst struct {
 	seed       uint64
 	stubCfg    stubConfig
 	writerFail int
-	isolated   int // 0 no; 1 FuncEvaluations only; 2 MajorIterations only; 3 Runtime only
+	isolated   int  // 0 no; 1 FuncEvaluations only; 2 MajorIterations only; 3 Runtime only; 4 no limit at all: default settings on a convex quadratic
+	nilSet     bool // isolated == 4: pass settings == nil
 	costly     bool
 	fcAbs      float64 // FunctionConverge parameters (convKind 2)
 	fcRel      float64
 	fcIter     int
-	knob       int // method tuning knob variant (0 = defaults)
+	knob       int  // method tuning knob variant (0 = defaults)
 	nilMethod  bool // pass method == nil: Minimize picks LBFGS (with Grad) or NelderMead
-	prime      int // the method value is reused: a first Minimize call, stopped by 1 func / 2 grad / 3 hess limit or 4 Problem.Status, precedes the run under test
+	prime      int  // the method value is reused: a first Minimize call, stopped by 1 func / 2 grad / 3 hess limit or 4 Problem.Status, precedes the run under test
 	primeN     int
 }
 
@@ -400,7 +429,8 @@ func drawMinimize(t *simrt.Tape) *minInst {
 	if usesLS(in.method) {
 		in.ls = t.Choose(simrt.KWorkload, 4)
 	}
-	in.obj = drawObjective(t, in.dim, false)
+	defaults := usesLS(in.method) && t.Choose(simrt.KWorkload, 8) == 7
+	in.obj = drawObjective(t, in.dim, defaults)
 	if in.method == mNewton && in.obj.hess == nil {
 		in.method = mBFGS
 	}
@@ -413,6 +443,9 @@ func drawMinimize(t *simrt.Tape) *minInst {
 	in.isolated = 0
 	if t.Choose(simrt.KWorkload, 6) == 5 {
 		in.isolated = 1 + t.Choose(simrt.KWorkload, 3)
+	}
+	if defaults {
+		in.isolated = 4
 	}
 	s := &in.set
 	s.Concurrent = in.conc
@@ -486,6 +519,22 @@ func drawMinimize(t *simrt.Tape) *minInst {
 		in.convKind = 1
 		in.obj.bad = 0
 		in.costly = true
+	case 4:
+		// Default settings: no limit of any kind. The run ends when the
+		// default GradientThreshold, the method's GradStopThreshold or the
+		// default FunctionConverge (no improvement by 1e-10 in 100 major
+		// iterations) says so; on a strictly convex quadratic, where every
+		// major iteration decreases F and F is bounded below, one of them
+		// must.
+		in.obj.bad = 0
+		in.convKind = 0
+		in.nilSet = t.Choose(simrt.KWorkload, 2) == 1
+		if in.nilSet {
+			in.conc = 0
+			s.Concurrent = 0
+		} else {
+			in.useRec = t.Choose(simrt.KWorkload, 2)
+		}
 	}
 	in.fcAbs = []float64{1e-2, 1e-3, 0.5, 0}[t.Choose(simrt.KWorkload, 4)]
 	in.fcRel = []float64{0, 1e-3, 0.05}[t.Choose(simrt.KWorkload, 3)]
@@ -552,7 +601,8 @@ func (in *minInst) describe(m map[string]interface{}) {
 		m["method_value_reused_after"] = fmt.Sprintf("a run stopped by %s=%d", []string{"", "FuncEvaluations", "GradEvaluations", "HessEvaluations", "Problem.Status at call"}[in.prime], in.primeN)
 	}
 	if in.isolated != 0 {
-		m["isolated_cause"] = []string{"", "FuncEvaluations", "MajorIterations", "Runtime"}[in.isolated]
+		m["isolated_cause"] = []string{"", "FuncEvaluations", "MajorIterations", "Runtime", "none (default settings)"}[in.isolated]
+		m["nil_settings"] = in.nilSet
 	}
 	if in.method == mCmaEs {
 		m["population"] = in.pop
@@ -585,6 +635,10 @@ type minRun struct {
 
 func (in *minInst) build() *minRun {
 	r := &minRun{in: in, log: newEvalLog(in.dim, 4096)}
+	if in.isolated == 4 {
+		r.log = newEvalLog(in.dim, 32768)
+		r.log.limit = defaultSettingsRunaway
+	}
 	var ls optimize.Linesearcher
 	switch in.ls {
 	case 1:
@@ -647,6 +701,11 @@ func (in *minInst) build() *minRun {
 			kind := "finite-objective"
 			if !log.allFinite() {
 				kind = "non-finite-objective"
+				if in.obj.bad == 0 && log.nanX {
+					// the objective is finite at every finite point: the
+					// method itself produced a NaN or Inf location
+					kind = "method-produced-non-finite-location"
+				}
 			}
 			if usesLS(in.method) {
 				kind = "linesearch/" + kind
@@ -670,7 +729,7 @@ func (in *minInst) build() *minRun {
 					kind += "/" + ls
 				}
 			}
-			simrt.Fail(fmt.Sprintf("nontermination/%s: %s: more than %d objective callbacks (%d func, %d grad) without Minimize stopping; limits %s", kind, methodNames[in.method], runawayLimit, log.nFunc, log.nGrad,
+			simrt.Fail(fmt.Sprintf("nontermination/%s: %s: more than %d objective callbacks (%d func, %d grad) without Minimize stopping; limits %s", kind, methodNames[in.method], log.limit, log.nFunc, log.nGrad,
 				fmt.Sprintf("func=%d major=%d grad=%d hess=%d runtime=%v", in.set.FuncEvaluations, in.set.MajorIterations, in.set.GradEvaluations, in.set.HessEvaluations, in.set.Runtime)))
 		}
 		perturb()
@@ -798,7 +857,11 @@ func (r *minRun) run() {
 	if r.in.nilMethod {
 		method = nil
 	}
-	r.res, r.err = optimize.Minimize(r.prob, x, &r.set, method)
+	set := &r.set
+	if r.in.nilSet {
+		set = nil
+	}
+	r.res, r.err = optimize.Minimize(r.prob, x, set, method)
 	r.t1 = simrt.Elapsed()
 }
 
@@ -848,6 +911,9 @@ func runMinimize(t *simrt.Tape, rc *RunCtx) *Violation {
 
 	cfg := drawConfig(t, 400)
 	cfg.MaxSteps = 400000
+	if in.isolated == 4 {
+		cfg.MaxSteps = 40 * defaultSettingsRunaway
+	}
 	rc.Instance["policy"] = cfg.Policy.String()
 	rc.Instance["gomaxprocs"] = cfg.GOMAXPROCS
 	r := in.build()
@@ -1137,6 +1203,19 @@ func checkC19(rc *RunCtx, in *minInst, r *minRun, nTasks int) *Violation {
 				return &Violation{prop, "minimize/coherence-no-worse-than-start/" + class, fmt.Sprintf("%s: Result.F=%v is worse than the initial point's %v", name, res.F, f0)}
 			}
 		}
+		// The sampling methods keep the best of everything evaluated: by the
+		// shutdown protocol every evaluation result, including the ones that
+		// arrive after the stop, is handed back to the method before results
+		// is closed, and the method may still announce MajorIterations then
+		// (minimize.go, "Algorithmic Overview"). So the optimum reported for
+		// GuessAndCheck and ListSearch is the minimum over all Func callbacks
+		// made, whatever the schedule.
+		if (in.method == mGuessAndCheck || in.method == mListSearch) && log.allFinite() && log.n > 0 && st.MajorIterations > 0 {
+			if min := log.minValue(); res.F > min {
+				return &Violation{prop, "minimize/coherence/best-of-evaluated/" + name, fmt.Sprintf("%s: Result.F=%v at X=%v, but the objective was evaluated to %v during the run (%d evaluations, status %v, Concurrent=%d): a late result was not taken into account",
+					name, res.F, res.X, min, log.nFunc, res.Status, in.conc)}
+			}
+		}
 	}
 
 	// Oracle 5: the status names the cause (soundness)
@@ -1363,6 +1442,120 @@ func checkC19(rc *RunCtx, in *minInst, r *minRun, nTasks int) *Violation {
 		} else if npost != 0 {
 			return fail("PostIteration recorded although Minimize returned an error")
 		}
+	}
+
+	// Oracle 8: with the default settings on a strictly convex quadratic a run
+	// that ends without an error has reached the minimizer: F is within 1e-6
+	// (relative to 1+|F*|) of the minimum F* = -b'A^-1 b/2, far looser than the
+	// default tests (gradient 1e-12, F unchanged by 1e-10 for 100 iterations).
+	if in.isolated == 4 && err == nil && in.prime == 0 {
+		rc.oracle("default-settings-reach-minimizer")
+		var ch mat.Cholesky
+		if ch.Factorize(in.obj.qa) {
+			xs := mat.NewVecDense(in.dim, nil)
+			if ch.SolveVecTo(xs, mat.NewVecDense(in.dim, append([]float64(nil), in.obj.qb...))) == nil {
+				fstar := in.obj.f(xs.RawVector().Data)
+				if !(res.F-fstar <= 1e-6*(1+math.Abs(fstar))) {
+					return &Violation{prop, "minimize/default-settings/not-at-minimizer/" + name, fmt.Sprintf("%s with default settings on %s from %v stopped with status %v at F=%v, X=%v; the minimum is %v at %v (%d func evaluations, %d major iterations)",
+						name, in.obj.name, in.initX, res.Status, res.F, res.X, fstar, xs.RawVector().Data, st.FuncEvaluations, st.MajorIterations)}
+				}
+			}
+		}
+	}
+
+	// Oracle 7: every step a line-search method announces satisfies the
+	// conditions its Linesearcher advertises, judged on the recorded history
+	// of MajorIterations (see checkLinesearchSteps).
+	if v := checkLinesearchSteps(rc, in, r); v != nil {
+		return v
+	}
+	return nil
+}
+
+// checkLinesearchSteps checks the advertised line-search conditions between
+// consecutive announced locations. With dx = x1-x0 = step*dir (step > 0) the
+// projected quantities step*(g.dir) equal g.dx, so the direction itself need
+// not be known:
+//
+//	Backtracking: f1 <= f0 + Decrease * g0.dx                       (Armijo)
+//	Bisection:    f1 <= f0  and  |g1.dx| <  Curvature * |g0.dx|     (strong Wolfe, zero decrease)
+//	MoreThuente:  f1 <= f0 + Decrease * g0.dx and |g1.dx| <= Curvature * |g0.dx|
+//
+// The parameters are the exported fields of the Linesearcher the method holds
+// after the run. x1 is a rounded x0+step*dir, so g.dx carries an error of at
+// most about one ulp of each x per coordinate; the comparison allows for it,
+// which makes the check vacuous for steps at rounding level and exact
+// otherwise.
+func checkLinesearchSteps(rc *RunCtx, in *minInst, r *minRun) *Violation {
+	if r.rec == nil || !usesLS(in.method) || in.nilMethod || in.obj.bad != 0 || r.method == nil {
+		return nil
+	}
+	var ls optimize.Linesearcher
+	switch m := r.method.(type) {
+	case *optimize.GradientDescent:
+		ls = m.Linesearcher
+	case *optimize.CG:
+		ls = m.Linesearcher
+	case *optimize.BFGS:
+		ls = m.Linesearcher
+	case *optimize.LBFGS:
+		ls = m.Linesearcher
+	case *optimize.Newton:
+		ls = m.Linesearcher
+	}
+	kind, dec, curv := "", 0.0, 0.0
+	switch l := ls.(type) {
+	case *optimize.Backtracking:
+		kind, dec = "Backtracking", l.DecreaseFactor
+	case *optimize.Bisection:
+		kind, curv = "Bisection", l.CurvatureFactor
+	case *optimize.MoreThuente:
+		kind, dec, curv = "MoreThuente", l.DecreaseFactor, l.CurvatureFactor
+	default:
+		return nil
+	}
+	if !(dec >= 0 && dec < 1) || !(curv >= 0 && curv < 1) {
+		return nil
+	}
+	rc.oracle("linesearch-conditions")
+	const eps = 2.220446049250313e-16
+	var prev *recEntry
+	for i := range r.rec.entries {
+		e := &r.rec.entries[i]
+		if e.x == nil {
+			continue
+		}
+		if prev == nil || prev.g == nil || e.g == nil {
+			prev = e
+			continue
+		}
+		var p0, p1, tol0, tol1 float64
+		for j := range e.x {
+			dx := e.x[j] - prev.x[j]
+			ulp := 4 * eps * (math.Abs(e.x[j]) + math.Abs(prev.x[j]))
+			p0 += prev.g[j] * dx
+			p1 += e.g[j] * dx
+			tol0 += math.Abs(prev.g[j]) * ulp
+			tol1 += math.Abs(e.g[j]) * ulp
+		}
+		tol0 += 16 * eps * math.Abs(p0)
+		tol1 += 16 * eps * math.Abs(p1)
+		ftol := 16 * eps * (math.Abs(prev.f) + math.Abs(e.f))
+		if math.IsNaN(p0+p1+prev.f+e.f) || math.IsInf(p0+p1+prev.f+e.f, 0) {
+			prev = e
+			continue
+		}
+		where := fmt.Sprintf("%s with %s: major iteration %d: f0=%v f1=%v g0.dx=%v g1.dx=%v (Decrease %v, Curvature %v)", methodNames[in.method], kind, e.stats.MajorIterations, prev.f, e.f, p0, p1, dec, curv)
+		if p0 > tol0 {
+			return &Violation{"C19", "minimize/linesearch-conditions/ascent-step/" + kind, where + ": the announced step goes uphill along the initial gradient"}
+		}
+		if e.f > prev.f+dec*p0+dec*tol0+ftol {
+			return &Violation{"C19", "minimize/linesearch-conditions/sufficient-decrease/" + kind, where + ": the announced step does not satisfy the sufficient decrease condition"}
+		}
+		if kind != "Backtracking" && math.Abs(p1) > curv*math.Abs(p0)+tol1+curv*tol0 {
+			return &Violation{"C19", "minimize/linesearch-conditions/curvature/" + kind, where + ": the announced step does not satisfy the strong Wolfe curvature condition"}
+		}
+		prev = e
 	}
 	return nil
 }
